@@ -41,6 +41,12 @@ type ConsulProvider struct {
 	spiffeID  *connect.SpiffeIDSigning
 	logger    hclog.Logger
 
+	// sharedState is set by Configure when the state store already had an
+	// entry for this provider's id: the entry (private key, root) is the one
+	// of a provider that was configured before with the same key settings,
+	// usually the active one.
+	sharedState bool
+
 	// testState is only used to test Consul leader's handling of providers that
 	// need to persist state. Consul provider actually manages it's state directly
 	// in the FSM since it is highly sensitive not (root private keys) not just
@@ -92,6 +98,7 @@ func (c *ConsulProvider) Configure(cfg ProviderConfig) error {
 	}
 
 	if providerState != nil {
+		c.sharedState = true
 		return nil
 	}
 
@@ -293,11 +300,17 @@ func (c *ConsulProvider) ActiveLeafSigningCert() (string, error) {
 }
 
 // Remove the state store entry for this provider instance.
-func (c *ConsulProvider) Cleanup(_ bool, _ map[string]interface{}) error {
-	// This method only gets called for final cleanup. Therefore we don't
-	// need to worry about the case where a ca config update is made to
-	// change the cert ttls but leaving the private key and root cert the
-	// same. Changing those would change the id field on the provider.
+func (c *ConsulProvider) Cleanup(providerTypeChange bool, _ map[string]interface{}) error {
+	// Final cleanup after a change to another provider type removes the
+	// entry. Otherwise this is the cleanup of an instance that was created
+	// for a configuration update that then failed: if the update left the
+	// private key and root cert settings alone (say it only changed a cert
+	// TTL) the id is that of the active provider, and the entry found by
+	// Configure is the active provider's private key and root. Only remove
+	// what this instance created.
+	if !providerTypeChange && c.sharedState {
+		return nil
+	}
 	args := &structs.CARequest{
 		Op:            structs.CAOpDeleteProviderState,
 		ProviderState: &structs.CAConsulProviderState{ID: c.id},
